@@ -258,6 +258,8 @@ fn union_sorted(a: &[u32], b: &[u32]) -> Vec<u32> {
     s.into_iter().collect()
 }
 
+pub const SIG_TWO_PEERS: &str = "C16-second-peer-indexes-against-first-peer-compact-block";
+
 pub struct ExResult {
     pub violations: Vec<(String, Value)>,
     /// Coq case text, None when the exchange could not be started
@@ -645,6 +647,70 @@ fn aimed_parts(rng: &mut Rng, g: &mut Gen, serial: &mut u64, variant: usize) -> 
     p
 }
 
+/// Two peers announce the same header with different compact blocks (the header commits to the
+/// transactions, but a compact block's short ids are only checked against it when the block is
+/// reconstructed): the second peer's compact block lists MORE transactions than the first one's.  Whatever
+/// the relayer keeps and asks for, no message of either peer may make `Relayer::received` panic.
+pub fn two_peer_probe(node: &mut node::Node, rt: &tokio::runtime::Runtime, rng: &mut Rng, serial: u64) -> Vec<(String, Value)> {
+    let mut viol = vec![];
+    let mk_tx = |k: u64| -> core::TransactionView {
+        let mut h = [0u8; 32];
+        h[..8].copy_from_slice(&(serial * 1000 + k).to_le_bytes());
+        h[31] = 0x2b;
+        core::TransactionBuilder::default()
+            .input(packed::CellInput::new(packed::OutPoint::new(h.pack(), 0), 0))
+            .output(packed::CellOutput::new_builder().capacity(core::Capacity::shannons(1000 + k).pack()).build())
+            .output_data(ckb_types::bytes::Bytes::new().pack())
+            .build()
+    };
+    let n1 = 1 + rng.below(3);
+    let extra = 1 + rng.below(4);
+    let txs: Vec<core::TransactionView> = std::iter::once(cellbase_shaped(900_000 + serial)).chain((0..n1).map(|k| mk_tx(k))).collect();
+    let parts = Parts { txs: txs.clone(), uncles: vec![], extension: None, prefilled: vec![], tx_avail: vec![], uncle_state: vec![] };
+    let full = build_block(node, &parts, 700_000 + serial, 0x2bee_0000 + serial as u128);
+    let pre: HashSet<usize> = [0usize].into_iter().collect();
+    let cb1 = packed::CompactBlock::build_from_block(&full, &pre);
+    // the same header, more short ids
+    let mut ids: Vec<packed::ProposalShortId> = cb1.short_ids().into_iter().collect();
+    for k in 0..extra { ids.push(mk_tx(500 + k).proposal_short_id()); }
+    let cb2 = cb1.clone().as_builder().short_ids(ids.pack()).build();
+    let hash = full.hash();
+    let (pa, pb) = (PeerIndex::new(800_000 + serial as usize * 2), PeerIndex::new(800_001 + serial as usize * 2));
+    let (ctx_a, ctx_b) = (Arc::new(Ctx::default()), Arc::new(Ctx::default()));
+    let detail = json!({"stream": "two-peers", "serial": serial, "first_compact_block": hex(cb1.as_slice()), "second_compact_block": hex(cb2.as_slice()),
+                        "transactions_first": txs.len(), "transactions_second": txs.len() as u64 + extra});
+    let mut deliver = |peer: PeerIndex, ctx: &Arc<Ctx>, msg: packed::RelayMessage, what: &str, viol: &mut Vec<(String, Value)>| -> bool {
+        let nc: Arc<dyn CKBProtocolContext + Sync> = ctx.clone();
+        let data = P2pBytes::from(msg.as_slice().to_vec());
+        match silent(|| rt.block_on(node.relayer.received(nc, peer, data))) {
+            Ok(_) => true,
+            Err(pn) => { viol.push((format!("Relayer::received panicked on {what}: {pn}"), detail.clone())); false }
+        }
+    };
+    let wait_req = |ctx: &Arc<Ctx>| -> Option<(Vec<u32>, Vec<u32>)> {
+        for _ in 0..3000 { if let Some(r) = requests_for(ctx, &hash).last().cloned() { return Some(r); } std::thread::sleep(Duration::from_millis(1)); }
+        None
+    };
+    if !deliver(pa, &ctx_a, packed::RelayMessage::new_builder().set(cb1.clone()).build(), "the first peer's compact block", &mut viol) { return viol; }
+    let _ = wait_req(&ctx_a);
+    if !deliver(pb, &ctx_b, packed::RelayMessage::new_builder().set(cb2.clone()).build(), "the second peer's compact block (same header, more short ids)", &mut viol) { return viol; }
+    let req_b = wait_req(&ctx_b);
+    // the second peer answers its request with as many transactions as it was asked for
+    if let Some((idx, _)) = req_b {
+        let reply: Vec<packed::Transaction> = idx.iter().map(|i| if (*i as usize) < txs.len() { txs[*i as usize].data() } else { mk_tx(500 + (*i as u64 - txs.len() as u64)).data() }).collect();
+        let bt = packed::BlockTransactions::new_builder().block_hash(hash.clone()).transactions(reply.pack()).build();
+        let _ = deliver(pb, &ctx_b, packed::RelayMessage::new_builder().set(bt).build(), &format!("the second peer's BlockTransactions reply to the request for {:?}", idx), &mut viol);
+    }
+    // and the first peer completes its own exchange honestly
+    if let Some((idx, un)) = requests_for(&ctx_a, &hash).last().cloned() {
+        let (t, u) = honest_reply(&full, &idx, &un);
+        let bt = packed::BlockTransactions::new_builder().block_hash(hash.clone())
+            .transactions(t.iter().map(|x| x.data()).collect::<Vec<_>>().pack()).uncles(u.iter().map(|x| x.data()).collect::<Vec<_>>().pack()).build();
+        let _ = deliver(pa, &ctx_a, packed::RelayMessage::new_builder().set(bt).build(), "the first peer's honest BlockTransactions reply", &mut viol);
+    }
+    viol
+}
+
 pub fn stream_rounds(rng: &mut Rng, out: &mut Out, thorough: bool) {
     let mut node = match silent(|| node::start_with(live_consensus())) {
         Ok(n) => n,
@@ -657,6 +723,14 @@ pub fn stream_rounds(rng: &mut Rng, out: &mut Out, thorough: bool) {
     let n_cases = shard_share_usize(if thorough { 6000 } else { 500 });
     let mut serial = 0u64;
     let mut g = Gen::new(rng.fork());
+    // two peers, one header, different compact blocks
+    for k in 0..(if thorough { 60 } else { 12 }) {
+        for (what, detail) in two_peer_probe(&mut node, &rt, rng, k as u64) {
+            out.violation(&what, detail, Some(SIG_TWO_PEERS));
+        }
+        out.evaluations += 1;
+        out.count("two_peer_probes");
+    }
     for ci in 0..n_cases {
         let p = if ci < 8 { aimed_parts(rng, &mut g, &mut serial, ci) } else { gen_parts(rng, &mut g, &mut serial, ci) };
         let nonce = ((rng.next() as u128) << 64) | rng.next() as u128;
